@@ -56,6 +56,10 @@ func (pq *plotterQueue) PopItem() *queuedWorkSpace {
 	pq.Lock()
 	defer pq.Unlock()
 
+	// Delete may have emptied the queue since the caller saw it non-empty
+	if pq.Prque.Empty() {
+		return nil
+	}
 	ws := pq.Prque.PopItem().(*queuedWorkSpace)
 	pq.poppedItem = ws
 	return ws
@@ -176,6 +180,9 @@ func (sk *SpaceKeeper) spacePlotter() {
 
 			verifGate("before-pop", "")
 			qws := sk.queue.PopItem()
+			if qws == nil {
+				continue
+			}
 			verifGate("popped", qws.ws.id.String())
 			killMonitorCh := make(chan struct{}, 1)
 			wg.Add(1)
